@@ -20,6 +20,16 @@ theorem invokeCont_kind (s : St) (c : Cont) (v : Delivered) : (invokeCont s c v)
   · exact (runInner_frame _ _).kind_eq
   · rfl
 
+theorem finishCore_kind (s : St) (c v : Nat) : (finishCore s c v).1.kind = s.kind := by
+  simp only [finishCore]
+  split
+  · rfl
+  · split
+    · split
+      · exact invokeCont_kind _ _ _
+      · rfl
+    · split <;> rfl
+
 theorem stepCore_kind (s : St) (op : Op) : (stepCore s op).1.kind = s.kind := by
   cases op with
   | thenOp ctx body =>
@@ -34,15 +44,9 @@ theorem stepCore_kind (s : St) (op : Op) : (stepCore s op).1.kind = s.kind := by
             exact (runInner_frame body _).kind_eq
           · rfl
       · rfl
-  | finish v =>
-    simp only [stepCore]
-    split
-    · rfl
-    · split
-      · split
-        · exact invokeCont_kind _ _ _
-        · rfl
-      · split <;> rfl
+  | finish v => exact finishCore_kind s 0 v
+  | finishK c v => exact finishCore_kind s c v
+  | take => simp only [stepCore]; split <;> rfl
   | destroyCtx c => rfl
   | copyHandle => simp only [stepCore]; split <;> rfl
   | dropHandle =>
@@ -71,6 +75,8 @@ theorem quiet_step_waiting (s : St) (c : Cont) (op : Op) (hq : op.quiet = true)
   cases op with
   | thenOp ctx body => simp [Op.quiet] at hq
   | finish v => simp [Op.quiet] at hq
+  | finishK c v => simp [Op.quiet] at hq
+  | take => simp [Op.quiet] at hq
   | destroyCtx x => exact ⟨⟨h.nf, h.cont⟩, rfl⟩
   | copyHandle =>
     simp only [stepCore]
